@@ -67,6 +67,52 @@ def gen_value(rng, t, env, depth=3):
     raise ValueError(t)
 
 
+def well_typed(t, j, env):
+    """is the JSON value j a legal wire value of IDL type t? (strictly: what the IDL says; serde's leniencies such as a
+    sequence for a struct are NOT counted as well typed, so they are simply never used as ill-typed probes either -
+    see probe_ok)"""
+    k = t[0]
+    if k == "bool":
+        return isinstance(j, bool)
+    if k == "int":
+        return isinstance(j, int) and not isinstance(j, bool)
+    if k == "float":
+        return isinstance(j, (int, float)) and not isinstance(j, bool)
+    if k == "string":
+        return isinstance(j, str)
+    if k == "object":
+        return True
+    if k == "name":
+        return well_typed(env[t[1]], j, env)
+    if k == "struct":
+        return isinstance(j, dict) and all(
+            (f in j and well_typed(ft, j[f], env)) or (ft[0] == "option" and (f not in j or j[f] is None)) for f, ft in t[1])
+    if k == "enum":
+        return isinstance(j, str) and j in t[1]
+    if k == "array":
+        return isinstance(j, list) and all(well_typed(t[1], x, env) for x in j)
+    if k == "dict":
+        return isinstance(j, dict) and all(well_typed(t[1], x, env) for x in j.values())
+    if k == "set":
+        return isinstance(j, dict) and all(x == {} for x in j.values())
+    if k == "option":
+        return j is None or well_typed(t[1], j, env)
+    raise ValueError(t)
+
+
+def contains_lenient(t, env, seen=()):
+    """types for which serde accepts more than the IDL shape (struct from a sequence, any number for float, set
+    elements with arbitrary values): ill-typed probes built from lists/numbers are ambiguous there"""
+    k = t[0]
+    if k in ("struct", "set", "float"):
+        return True
+    if k == "name":
+        return t[1] in seen or contains_lenient(env[t[1]], env, seen + (t[1],))
+    if k in ("array", "dict", "option"):
+        return contains_lenient(t[1], env, seen)
+    return False
+
+
 def expected_wire(t, v, env, top=False):
     """the JSON the property demands for value v of type t (top: a parameter struct member list,
     where unset optionals may be omitted or null - we canonicalise to omitted)"""
